@@ -103,7 +103,7 @@ def shard(ctx, shard_no, nshards, n_random, stride):
         for alias in _aliases_of(inp):
             case = dict(inp, alias=alias)
             r = check_case(case, limit=limit, stats=stats)
-            ctx.case((inp['text'], alias), r in ('split', 'moved-whole'), 'random:' + r, sample={'text': inp['text'], 'alias': alias} if r == 'split' else None)
+            ctx.case((sem.case_key(inp), alias), r in ('split', 'moved-whole'), ('derived-input:' if inp.get('pre') else 'random:') + r, sample={'text': inp['text'], 'alias': alias} if r == 'split' else None)
 
     with ctx.timed('random'):
         core.run_hypothesis(ctx, 'random', from_tape(lambda ch: sem.random_bool_case(ch, kinds=('condition', 'predicate', 'expression'))), body, n_random)
